@@ -497,3 +497,39 @@ impl H {
     #[zbus(signal)]
     pub async fn poked(emitter: &SignalEmitter<'_>, n: u32) -> zbus::Result<()>;
 }
+
+/// The client-side view of interface A, generated by `#[zbus::proxy]` (async and blocking).
+#[zbus::proxy(interface = "org.sim.A", default_service = "org.sim.Svc", default_path = "/a")]
+pub trait SimA {
+    fn add(&self, a: i32, b: i32) -> zbus::Result<i32>;
+    fn concat(&self, a: &str, b: &str) -> zbus::Result<String>;
+    fn bump(&self, by: u64) -> zbus::Result<u64>;
+    fn half(&self, v: u32) -> zbus::Result<u32>;
+    fn pair(&self, a: u8, b: bool) -> zbus::Result<(u8, bool)>;
+    fn nothing(&self) -> zbus::Result<()>;
+    fn sum(&self, v: &[u16]) -> zbus::Result<u32>;
+    fn count(&self, m: HashMap<String, u32>) -> zbus::Result<u32>;
+    fn describe(&self, v: &zbus::zvariant::Value<'_>) -> zbus::Result<String>;
+    fn checked(&self, v: i16) -> zbus::Result<i16>;
+    fn wide(&self, a: u8, b: i64, c: f64, d: &str, e: (u32, &str)) -> zbus::Result<(i64, String)>;
+
+    #[zbus(property)]
+    fn label(&self) -> zbus::Result<String>;
+    #[zbus(property)]
+    fn set_label(&self, v: &str) -> zbus::Result<()>;
+    #[zbus(property)]
+    fn level(&self) -> zbus::Result<u32>;
+    #[zbus(property)]
+    fn set_level(&self, v: u32) -> zbus::Result<()>;
+    #[zbus(property)]
+    fn quiet(&self) -> zbus::Result<u16>;
+    #[zbus(property)]
+    fn set_quiet(&self, v: u16) -> zbus::Result<()>;
+    #[zbus(property)]
+    fn fixed(&self) -> zbus::Result<u8>;
+    #[zbus(property)]
+    fn counter(&self) -> zbus::Result<u64>;
+
+    #[zbus(signal)]
+    fn tick(&self, n: u32, what: &str) -> zbus::Result<()>;
+}
